@@ -184,9 +184,12 @@ def make_user_classes(ns):
     return UserIterator, UserWriter, UserRegistry
 
 
-def csv_text(rows, header):
+DIALECTS = [(',', 'quoted', ','), (',', 'quoted', ','), (';', 'quoted', ';'), ('\t', 'simple', 'TAB'), ('\t', 'simple', '\\t'), ('|', 'simple', '|'), ('Д', 'simple', 'Д'), ('→', 'quoted', '→'), ('::', 'quoted', '::')]
+
+
+def csv_text(rows, header, dlm=',', policy='quoted'):
     allrows = ([header] if header is not None else []) + rows
-    return refcsv.write_table(allrows, ',', 'quoted', '\n')
+    return refcsv.write_table(allrows, dlm, policy, '\n')
 
 
 def parse_out(data, dlm, policy, has_header):
@@ -246,15 +249,19 @@ def run_shard(spec, res):
                 err = '%s: %s' % (util.error_class(e), str(e)[:100])
             cmp('query+user-classes', w.rows, w.header, err)
 
-            # 2. query_csv file -> file
+            # 2. query_csv file -> file  (the CSV dialect of the files rotates: delimiter incl. non-ASCII and multi-character, policy)
+            dlm, pol, cli_dlm = DIALECTS[idx % len(DIALECTS)]
+            if not refcsv.representable(([an] if an else []) + A + (B or []) + ([bn] if bn else []), dlm, pol, 'utf-8') or not refcsv.representable([[stringify(v) for v in r] for r in ref['rows']] or [['x']], dlm, pol, 'utf-8'):
+                dlm, pol, cli_dlm = DIALECTS[0]
+            res.count('dialect:%s/%s' % (cli_dlm, pol))
             inp = os.path.join(d, 'in_%d.csv' % n)
             with open(inp, 'w', encoding='utf-8', newline='') as f:
-                f.write(csv_text(A, an))
+                f.write(csv_text(A, an, dlm, pol))
             q_csv = copy.deepcopy(case['q'])
             if B is not None:
                 jn = os.path.join(d, 'jn_%d.csv' % n)
                 with open(jn, 'w', encoding='utf-8', newline='') as f:
-                    f.write(csv_text(B, bn))
+                    f.write(csv_text(B, bn, dlm, pol))
                 q_csv['join']['table'] = 'jn_%d.csv' % n
             qtext_csv = qast.render(q_csv, qast.Ctx(an, bn), 'py')
             outp = os.path.join(d, 'out_%d.csv' % n)
@@ -262,30 +269,30 @@ def run_shard(spec, res):
             err = None
             rows = hdr = None
             try:
-                ns.rbql.query_csv(qtext_csv, inp, ',', 'quoted', outp, ',', 'quoted', 'utf-8', [], has_header)
+                ns.rbql.query_csv(qtext_csv, inp, dlm, pol, outp, dlm, pol, 'utf-8', [], has_header)
                 with open(outp, 'rb') as f:
-                    rows, hdr = parse_out(f.read(), ',', 'quoted', out_has_header)
+                    rows, hdr = parse_out(f.read(), dlm, pol, out_has_header)
             except Exception as e:
                 err = '%s: %s' % (util.error_class(e), str(e)[:100])
             cmp('query_csv', rows, hdr, err)
 
             # 3. the command line: files, stdin/stdout, the three output formats
-            base = ['--delim', ',', '--policy', 'quoted', '--query', qtext_csv] + (['--with-headers'] if has_header else [])
+            base = ['--delim', cli_dlm, '--policy', pol, '--query', qtext_csv] + (['--with-headers'] if has_header else [])
             fmt = ['input', 'csv', 'tsv'][n % 3]
-            dl, pol = {'input': (',', 'quoted'), 'csv': (',', 'quoted'), 'tsv': ('\t', 'simple')}[fmt]
+            dl, pol_o = {'input': (dlm, pol), 'csv': (',', 'quoted'), 'tsv': ('\t', 'simple')}[fmt]
             p = run_cli(base + ['--input', inp, '--output', outp, '--out-format', fmt], d)
             res.count('cli_runs')
             if p.returncode != 0 or p.stdout:
                 res.violation('py:cli-exit-status-or-stdout:file', '[cli file] %s: exit %d stdout %r stderr %r' % (qtext_csv, p.returncode, p.stdout[:80], p.stderr[-200:]), dict(case, front_end='cli-file'))
             else:
                 with open(outp, 'rb') as f:
-                    rows, hdr = parse_out(f.read(), dl, pol, out_has_header)
+                    rows, hdr = parse_out(f.read(), dl, pol_o, out_has_header)
                 cmp('cli-file-' + fmt, rows, hdr)
             if B is None or True:
                 with open(inp, 'rb') as f:
                     data = f.read()
                 fmt2 = ['csv', 'tsv', 'input'][n % 3]
-                dl2, pol2 = {'input': (',', 'quoted'), 'csv': (',', 'quoted'), 'tsv': ('\t', 'simple')}[fmt2]
+                dl2, pol2 = {'input': (dlm, pol), 'csv': (',', 'quoted'), 'tsv': ('\t', 'simple')}[fmt2]
                 # a join table is found relative to the current directory when the input comes from stdin
                 p = run_cli(base + ['--out-format', fmt2], d, stdin=data)
                 res.count('cli_runs')
